@@ -380,6 +380,11 @@ type SimFetcher struct{ E *Env }
 func (f *SimFetcher) Get(k eval.VariableKey, s string) (eval.Value, error) {
 	v, err := f.E.Get(int16(k), s)
 	if err != nil {
+		if se, ok := err.(*SimErr); ok && se.Site%2 == 1 {
+			// some fetchers hand back a placeholder together with the error; the
+			// error is what counts
+			return "value returned together with an error", err
+		}
 		return nil, err
 	}
 	return v, nil
